@@ -170,7 +170,7 @@ def run_case(desc, seed, tier):
         res["violations"].append({"signature": sig, "detail": detail, "replay": rp, "hash": case_hash(rp)})
         res["status"] = "violation"
 
-    while explored < 6:
+    while explored < 20:
         sc, senv, leaves, spec, x, rows, mask, mrows = _setup(desc, seed, overrides)
         nparams = len(senv.param_vars)
         comp = TorchCompiler(semiring=sem, fold=desc["fold"], optimize=desc["optimize"])
@@ -286,7 +286,7 @@ def run_case(desc, seed, tier):
         env = sess.q.model_env(model, bools)
         overrides = {t.data: bool(v) for t, v in env.items()}
     else:
-        res["inconclusive"].append("path budget (6) exhausted")
+        res["inconclusive"].append("path budget (20) exhausted")
     desc.pop("_pcs", None)
     res["hash"] = case_hash([desc["circuit"], sem, desc["fold"], desc["optimize"], desc["B"]])
     res["nontrivial"] = nparams >= 2
@@ -358,6 +358,29 @@ def _formats_case(desc, seed, res):
             res["discharged"] += 1
         else:
             viol("per-sample-scopes", "a list with one scope per sample differs from the equivalent mask tensor", {})
+    # lists that mix empty scopes ("marginalise nothing for this sample") with non-empty ones
+    if B >= 2:
+        for pattern in ([0, 1], [1, 0], [0, 0], [0, 2]):
+            scopes = []
+            for i in range(B):
+                kind = pattern[i % len(pattern)]
+                scopes.append(Scope([]) if kind == 0 else Scope(vars_[: min(kind, len(vars_))]))
+            mask = torch.zeros((B, D), dtype=torch.bool)
+            for i, s_ in enumerate(scopes):
+                for v in s_:
+                    mask[i, v] = True
+            try:
+                a = q(x, integrate_vars=mask)
+                b = q(x, integrate_vars=scopes)
+            except Exception as e:  # noqa
+                tb = traceback.format_exc()
+                viol(f"raises:{type(e).__name__}@{circuit_check.repo_frame(tb)}", f"scopes {scopes}: {type(e).__name__}: {e}", {})
+                continue
+            res["obligations"] += 1
+            if a.shape == b.shape and torch.allclose(a, b, equal_nan=True):
+                res["discharged"] += 1
+            else:
+                viol("empty-scopes-in-list", f"integrate_vars={scopes} differs from the equivalent mask tensor {mask.tolist()}", {})
     # rejection of variables outside the scope
     outside = max(vars_) + 1
     for bad in (Scope([outside]), [Scope([vars_[0], outside])] + [Scope([])] * (B - 1)):
